@@ -6,7 +6,7 @@
          table / collection flags / epoch flags / epoch counter.
      hist <script-cache-elems> <sig-cache-elems> <ntx> {<valid-under-flags table>}* ops {<tx> <flags> <sigstore> <fullstore> <deferred>}*
          a history of CheckInputScripts calls on one ValidationCache.  The table gives, for every transaction of the
-         driver's pool, the flags masks that make it invalid ("<mask>" = invalid iff flags & mask != 0, "always", "never").
+         driver's pool, the flags masks that make it invalid ("<mask>" = invalid iff flags & mask != 0, "all:<mask>" = invalid iff all bits of the mask are set, "always", "never").
          Output: the verdict of every call with the warm caches, and with fresh caches ("w=1011 f=1011"). *)
 open Conv
 
@@ -58,13 +58,14 @@ let cuckoo_sound ws (impl : string) : string =
   | _ -> "fail bad case"
 
 (* ---- histories ---- *)
-type rule = Always | Never | Mask of Z.t
+type rule = Always | Never | Mask of Z.t | All of Z.t
 let hist ws = match ws with
   | sc_elems :: sg_elems :: ntx :: r ->
     let ntx = int_of_string ntx in
     let rec take k l acc = if k = 0 then (List.rev acc, l) else match l with x :: r -> take (k - 1) r (x :: acc) | [] -> failwith "short" in
     let (rules, r) = take ntx r [] in
-    let rules = Array.of_list (List.map (fun s -> if s = "always" then Always else if s = "never" then Never else Mask (Z.of_string s)) rules) in
+    let rules = Array.of_list (List.map (fun s -> if s = "always" then Always else if s = "never" then Never
+        else if String.length s > 4 && String.sub s 0 4 = "all:" then All (Z.of_string (String.sub s 4 (String.length s - 4))) else Mask (Z.of_string s)) rules) in
     let r = (match r with "ops" :: r -> r | _ -> failwith "no ops") in
     let rec calls l acc = match l with
       | t :: fl :: ss :: fs :: df :: r ->
@@ -73,7 +74,8 @@ let hist ws = match ws with
       | [] -> List.rev acc
       | _ -> failwith "bad op" in
     let h = calls r [] in
-    let valid t fl = (match rules.(t) with Always -> false | Never -> true | Mask m -> Z.equal (Z.logand fl m) Z.zero) in
+    let valid t fl = (match rules.(t) with Always -> false | Never -> true | Mask m -> Z.equal (Z.logand fl m) Z.zero
+                                      | All m -> not (Z.equal (Z.logand fl m) m)) in
     (* every transaction of the pool is a single signature query whose answer decides the verdict *)
     let oracle (q : Model.sigquery) = (q.Model.sq_sig = [n_of_int 1]) in
     let sigkey (q : Model.sigquery) = z_of_zt (Z.add (Z.of_int 1) (Z.add (Z.shift_left (zt_of_n (List.hd q.Model.sq_pubkey)) 80) (Z.add (Z.shift_left (zt_of_n (List.hd q.Model.sq_sighash)) 8) (zt_of_n (List.hd q.Model.sq_sig))))) in
